@@ -28,7 +28,16 @@ type ctx struct {
 	tier  string
 	quick bool
 	seed  uint64
-	// scale(nQuick, nThorough)
+	// direct, synchronous access to a model process (for cases whose input is produced by the model)
+	direct *h.Model
+}
+
+func (c *ctx) ask(line string) string {
+	out, err := c.direct.Ask(line)
+	if err != nil {
+		return "MODEL-ERROR " + err.Error()
+	}
+	return out
 }
 
 func (c *ctx) n(q, t int) int {
@@ -81,9 +90,15 @@ func main() {
 		fmt.Fprintln(os.Stderr, "cannot start model:", err)
 		os.Exit(2)
 	}
-	cx := &ctx{ru: ru, rng: h.NewRand(seed ^ hashStr(*prop)), tier: *tier, quick: *tier != "thorough", seed: seed}
+	direct, err := h.StartModel(*model)
+	if err != nil {
+		fmt.Fprintln(os.Stderr, "cannot start model:", err)
+		os.Exit(2)
+	}
+	cx := &ctx{ru: ru, rng: h.NewRand(seed ^ hashStr(*prop)), tier: *tier, quick: *tier != "thorough", seed: seed, direct: direct}
 	s.run(cx)
 	ru.Wait()
+	direct.Close()
 	if *out != "" {
 		if err := res.WriteJSON(*out); err != nil {
 			fmt.Fprintln(os.Stderr, err)
